@@ -969,6 +969,56 @@ def inline_function(idx: PyIndex, fi: FuncInfo, depth: int = 2, keep=None, types
             return node
     fn = _ImportedStrings().visit(fn)
     ast.fix_missing_locations(fn)
+    # v = Record(a, b) (a NamedTuple / plain dataclass of the package, v bound once): `v.field` is the argument that was passed for it
+    rec_locals: Dict[str, Dict[str, ast.AST]] = {}
+    n_store: Dict[str, int] = {}
+    for x in ast.walk(fn):
+        if isinstance(x, ast.Name) and isinstance(x.ctx, (ast.Store, ast.Del)):
+            n_store[x.id] = n_store.get(x.id, 0) + 1
+    for x in ast.walk(fn):
+        if isinstance(x, ast.Assign) and len(x.targets) == 1 and isinstance(x.targets[0], ast.Name) and n_store.get(x.targets[0].id) == 1 and isinstance(x.value, ast.Call) \
+                and isinstance(x.value.func, (ast.Name, ast.Attribute)) and not any(isinstance(a, ast.Starred) for a in x.value.args) \
+                and all(k.arg is not None for k in x.value.keywords):
+            ci = None
+            for mn in [fi.module] + sorted(_touched_modules):
+                if mn in idx.modules:
+                    ci = idx.class_of(mn, x.value.func)
+                    if ci is not None:
+                        break
+            if ci is None:
+                continue
+            is_record = any((isinstance(b, ast.Name) and b.id == 'NamedTuple') or (isinstance(b, ast.Attribute) and b.attr == 'NamedTuple') for b in ci.node.bases) or (
+                any((isinstance(d, ast.Name) and d.id == 'dataclass') or (isinstance(d, ast.Call) and getattr(d.func, 'id', '') == 'dataclass') for d in ci.node.decorator_list)
+                and not any(m_ in ci.methods for m_ in ('__init__', '__post_init__', '__setattr__', '__getattr__')))
+            fields = [st_.target.id for st_ in ci.node.body if isinstance(st_, ast.AnnAssign) and isinstance(st_.target, ast.Name)]
+            if not is_record or not fields or len(x.value.args) > len(fields) or any(f_ in ci.methods or f_ in ci.props for f_ in fields):
+                continue
+            vals = dict(zip(fields, x.value.args))
+            vals.update({k.arg: k.value for k in x.value.keywords if k.arg in fields})
+
+            def cheap_(e):
+                if isinstance(e, ast.Subscript):
+                    return cheap_(e.value) and all(isinstance(y, (ast.Name, ast.Constant, ast.Slice, ast.Load)) for y in ast.walk(e.slice))
+                return isinstance(e, (ast.Name, ast.Constant)) or (isinstance(e, ast.Attribute) and _is_path(e))
+            if all(cheap_(v_) for v_ in vals.values()):
+                rec_locals[x.targets[0].id] = vals
+    if rec_locals:
+        class _Fields(ast.NodeTransformer):
+            def visit_Attribute(self, node):
+                self.generic_visit(node)
+                if isinstance(node.ctx, ast.Load) and isinstance(node.value, ast.Name) and node.value.id in rec_locals and node.attr in rec_locals[node.value.id]:
+                    return ast.copy_location(copy.deepcopy(rec_locals[node.value.id][node.attr]), node)
+                return node
+        fn = _Fields().visit(fn)
+        left = {x.id for x in ast.walk(fn) if isinstance(x, ast.Name) and isinstance(x.ctx, ast.Load)}
+
+        class _DropRec(ast.NodeTransformer):
+            def visit_Assign(self, node):
+                if len(node.targets) == 1 and isinstance(node.targets[0], ast.Name) and node.targets[0].id in rec_locals and node.targets[0].id not in left:
+                    return None
+                return node
+        fn = _DropRec().visit(fn)
+        ast.fix_missing_locations(fn)
     fn = _Subst({}).visit(fn)           # getattr(x, 'const') -> x.const, applied lambdas
     if fn.body and any(isinstance(x, (ast.If, ast.IfExp)) for x in ast.walk(fn)):
         folded = _Fold(idx, exact).visit(fn)
